@@ -848,14 +848,14 @@ def exhaustive_decks(res, quick):
                 continue
             k += 1
             variants = []
-            if not quick or k % 2 == 0:
+            if not quick or k % 3 == 0:
                 variants.append(('data', [(1, ''), (2, ''), (3, '')],
                                  ['imp:n ' + ' '.join(imp_n),
                                   'imp:p ' + ' '.join(imp_p)], {}))
-            if not quick or k % 2 == 1:
+            if not quick or k % 3 == 1:
                 variants.append(('cell', [(i + 1, f'imp:n={imp_n[i]} imp:p={imp_p[i]}')
                                           for i in range(3)], [], {}))
-            if not quick or k % 8 == 0:
+            if not quick or k % 9 == 2:
                 variants.append(('fill', [(1, ''), (2, 'fill=5'), (3, '')],
                                  ['imp:n ' + ' '.join(imp_n) + ' 1 1',
                                   'imp:p ' + ' '.join(imp_p) + ' 1 1'],
@@ -1100,7 +1100,7 @@ def run(res, tier, seed, proofs_ok):
         exhaustive_decks(res, quick)
         expand_ties(res, rng, 300 if quick else 3000, 200 if quick else 2000,
                     2 if quick else 3)
-        parse_ties(res, rng, 300 if quick else 2000, 200 if quick else 1000)
+        parse_ties(res, rng, 250 if quick else 2000, 150 if quick else 1000)
     coverage_obligation(res, cov)
     lattice_sweep(res, 30 if quick else 150, rng)
     conversion_sweep(res, rng, 250 if quick else 1800, 40 if quick else 200)
